@@ -38,7 +38,7 @@ def tangent_like(pd):
     return out
 
 
-def derivative_checks(S, smp, name, obs, spec_fail, desc):
+def derivative_checks(S, smp, name, obs, spec_fail, desc, tight=None):
     import jax
     import jax.numpy as jnp
     f = wrapper(S, smp, name)
@@ -59,7 +59,9 @@ def derivative_checks(S, smp, name, obs, spec_fail, desc):
         n += 2
     # the finite-difference values must agree with the AD value up to the O(h^2) / round-off error of the difference
     tol = [2e-4, 2e-5, 2e-5]
-    if not any(abs(fd - dE) <= t * max(1.0, abs(dE)) for fd, t in zip(fds, tol)) or abs(fds[1] - dE) > 1e-3 * max(1.0, abs(dE)):
+    # `tight`: for smooth, well-conditioned cases the h = 1e-4 difference agrees to ~1e-8; a looser match there is a wrong derivative
+    if not any(abs(fd - dE) <= t * max(1.0, abs(dE)) for fd, t in zip(fds, tol)) or abs(fds[1] - dE) > 1e-3 * max(1.0, abs(dE)) \
+            or (tight is not None and abs(fds[1] - dE) > tight * max(1.0, abs(dE))):
         spec_fail.append((name, "forward-mode derivative equals the finite-difference derivative of the same function",
                           {**desc, "jvp": dE, "finite_differences(h=1e-3,1e-4,1e-5)": fds}))
     # reverse mode: gradient with respect to the observable at coupling 1, contracted with the observable
@@ -153,7 +155,7 @@ def one_body_limit(rng, spec_fail, kind):
     return 1
 
 
-def ring_system(rng, norb=4, u=2.0):
+def ring_system(rng, norb=4, u=2.0, nocc=1):
     """Hubbard ring with a closed-shell, uniform-density trial: the mean-field-shifted one-body matrix keeps the ring
     symmetry, i.e. it has exactly degenerate levels (k, -k) - the case in which a derivative taken through an
     eigen-decomposition with regularised denominators differs from the derivative of the matrix function"""
@@ -167,12 +169,12 @@ def ring_system(rng, norb=4, u=2.0):
     for i in range(norb):
         chol[i, i, i] = np.sqrt(u)
     w, v = np.linalg.eigh(K)
-    ne = (1, 1)
+    ne = (nocc, nocc)
     ham = hamiltonian.hamiltonian(norb)
     ham_data = {"h0": 0.0, "h1": jnp.array([K, K]), "chol": jnp.array(chol.reshape(norb, -1)), "ene0": 0.0}
     trial = wavefunctions.rhf(norb, ne)
-    wd = {"mo_coeff": jnp.array(v[:, :1])}
-    wd["rdm1"] = jnp.array([v[:, :1] @ v[:, :1].T] * 2)
+    wd = {"mo_coeff": jnp.array(v[:, :nocc])}
+    wd["rdm1"] = jnp.array([v[:, :nocc] @ v[:, :nocc].T] * 2)
     prop = propagation.propagator_restricted(dt=0.05, n_walkers=4)
     ham_data = ham.build_measurement_intermediates(ham_data, trial, wd)
     ham_data = ham.build_propagation_intermediates(ham_data, prop, trial, wd)
@@ -253,6 +255,22 @@ def run(ctx):
         combos.append(json.dumps(["propagate_phaseless_ad_norot", "ring", [2, 2, 2]]))
     except Exception as ex:
         spec_fail.append(("propagate_phaseless_ad_norot", "ring (degenerate levels) run executes", {"error": repr(ex)[:300]}))
+    # a ring whose OCCUPIED space contains an exactly degenerate pair (six sites, 3 + 3 electrons: k = 0, +1, -1), with orbital
+    # relaxation on: the derivative runs through the eigen-decomposition inside trial.optimize at coinciding occupied levels, and
+    # the observable couples the pair
+    try:
+        from ad_afqmc import sampling as _smp
+        # U = 2.5: the 30 Roothaan iterations are a contraction (at U >= 3 the iteration map is ill-conditioned and its exact derivative
+        # is not what a finite difference sees); 20 steps per block so that the walkers have left the (variational) trial
+        S = ring_system(rng, norb=6, u=2.5, nocc=3)
+        O = systems.sym(systems.dyadic(random.Random(rng.randrange(1 << 30)), (6, 6), 3))
+        for nm in (("propagate_phaseless_ad",) if ctx.tier == "quick" else ("propagate_phaseless_ad", "propagate_phaseless_ad_nosr")):
+            evals += derivative_checks(S, _smp.sampler(n_prop_steps=20, n_ene_blocks=1, n_sr_blocks=2, n_blocks=1), nm,
+                                       jnp.array([O, O]), spec_fail, {"system": "6-site Hubbard ring U=2.5, 3+3 electrons (degenerate occupied pair), orbital relaxation on", "nelec": (3, 3)},
+                                       tight=2e-6)
+            combos.append(json.dumps([nm, "ring6", [20, 1, 2]]))
+    except Exception as ex:
+        spec_fail.append(("propagate_phaseless_ad", "ring (degenerate occupied levels) run executes", {"error": repr(ex)[:300]}))
     for kind in ("rhf", "uhf"):
         try:
             evals += one_body_limit(rng, spec_fail, kind)
